@@ -38,7 +38,7 @@ StrLits(f) ==
 Behaviour ==
   [file0 |-> FileRec(file0), enc |-> DeclEnc(file0), effective |-> Effective(file0.layout),
    act |-> act,
-   pre |-> pre, bytes0 |-> disk0, text0 |-> Text(file0), strs0 |-> StrLits(file0),
+   padmark |-> PadMark, pre |-> pre, bytes0 |-> disk0, text0 |-> Text(file0), strs0 |-> StrLits(file0),
    bytes1 |-> disk1, text1 |-> Read(disk1, DeclEnc(file0)).text,   \* = Text(file after the action) by ReadBack
    bytes2 |-> disk, undone |-> (phase = "undone"),
    off |-> IF act.op = "rename" THEN DefOffset(file0) ELSE 0,
